@@ -90,3 +90,64 @@ func VerifHarness_C10_Legacy() {
 	}
 	verifReach("returned")
 }
+
+// loading: from the decoder outward
+func c10ErrText(err error) string {
+	if err == nil {
+		return ""
+	}
+	return err.Error() + " | " + func() string {
+		type detailed interface{ GetTechnicalDetails() string }
+		if d, ok := err.(detailed); ok {
+			return d.GetTechnicalDetails()
+		}
+		return ""
+	}()
+}
+
+func VerifHarness_C10_Load() {
+	path := verifFSRoot() + "/db/commands.yml"
+	state := verifIntRange("state", 0, 3)
+	n := 0
+	switch state {
+	case 0: // missing
+	case 1:
+		verifFSMkdir(path)
+	case 2:
+		verifFSPutGarbage(path)
+	case 3:
+		n = verifIntRange("entries", 0, 2)
+		var cmds []Command
+		for i := 0; i < n; i++ {
+			cmds = append(cmds, Command{Command: "c" + string(rune('a'+i)) + " x", Description: "desc " + string(rune('a'+i)), Keywords: []string{"kw"}})
+		}
+		verifFSPutDoc(path, "yaml", cmds)
+	}
+	db, err := LoadDatabase(path)
+	switch state {
+	case 0:
+		verifAssert(err != nil && db == nil, "C10: a missing file is an error")
+		if err != nil {
+			verifAssert(containsAnyLocal(c10ErrText(err), []string{"not found"}), "C10: a missing file is reported as not-found")
+		}
+		verifReach("not-found")
+	case 1:
+		verifAssert(err != nil && db == nil, "C10: a directory in place of the file is an error")
+		verifReach("other-error")
+	case 2:
+		verifAssert(err != nil && db == nil, "C10: undecodable content is an error")
+		if err != nil {
+			verifAssert(containsAnyLocal(c10ErrText(err), []string{"parse"}), "C10: undecodable content is reported as a parse error")
+		}
+		verifReach("parse-error")
+	case 3:
+		verifAssert(err == nil && db != nil, "C10: every well-formed list of entries loads")
+		if db != nil {
+			verifAssert(len(db.Commands) == n, "C10: every entry of the file is loaded")
+			q := "c" + verifString("q", 1)
+			_ = db.SearchUniversal(q, SearchOptions{Limit: verifInt("limit"), UseFuzzy: true, UseNLP: verifBool("nlp")})
+			_ = db.GetSuggestions(q, 3)
+		}
+		verifReach("loaded")
+	}
+}
